@@ -4,4 +4,4 @@ Extraction "c12_model.ml" proto_anchor
   no_of_angles rotation_planes set_angles set_anis eye givens_rotation matmul transpose
   matrix_rotate matrix_derotate matrix_isotropify matrix_anisotropify matrix_isometrize matrix_anisometrize
   rotated_main_axes isometrize anisometrize main_axes col_norms get_iso_rad len_scale_vec axis_arg
-  set_model_angles set_len_anis.
+  set_model_angles set_len_anis geo_step geo_init geo_isometrize geo_anisometrize geo_iso_rad.
